@@ -69,7 +69,7 @@ DoUnpack == Obj \ S.live # {} /\ \E ns \in UnpackChoices :
             /\ Step("unpack", p, UnpackPost(S, p)) /\ UNCHANGED nextc
 
 DoMutate == \E x \in S.live : \E i \in 1..Len(S.slots[x]) :
-            LET p == [x |-> x, r |-> S.slots[x][i], c |-> nextc] IN
+            LET p == [x |-> x, r |-> S.slots[x][i], c |-> nextc, b |-> S.bk[x]] IN
             /\ MutateShape(S, p)
             /\ Step("mutate", p, MutatePost(S, p)) /\ nextc' = nextc + 1
 
